@@ -169,7 +169,11 @@ func vC07MutationAt(withOrigin bool, op int, o int) {
 	if op == 0 {
 		// a proper prefix of a record is not a record: only the empty stream and the
 		// record minus its final newline may be read without error
-		vAssert("truncation-reported", vOr(vAnd(o == 0, recs == 0), vAnd(o >= n-1, recs == 1)))
+		eol := 1
+		if vCRLFRecord {
+			eol = 2 // the record minus its final CRLF (or minus the LF of it) is still the whole record
+		}
+		vAssert("truncation-reported", vOr(vAnd(o == 0, recs == 0), vAnd(o >= n-eol, recs == 1)))
 		return
 	}
 	isGB := false
